@@ -15,8 +15,9 @@ From MJ Require Import Common.Base Lang.Syntax Lang.Meta Lang.Interp
      C18.Old C18.Tracker C18.Runtime C18.XInterp C18.XAgree C18.NMeta C18.NTracker C18.Proofs.
 
 (* Soundness of the static report, for EVERY outcome of the render: for every program (expressions
-   incl. slices, if/elif/else, for with filter / else / break / continue, set, attribute assignment,
-   set blocks, with, macros with defaults, keyword arguments and caller, call blocks, filter blocks,
+   incl. slices, map literals and map lookups, if/elif/else, for with filter / else / break / continue
+   over lists, strings and maps, set and with incl. unpacking into two names, attribute assignment,
+   set blocks, macros with defaults, keyword arguments and caller, call blocks, filter blocks,
    autoescape), every undefined-behaviour mode, every render context whose values contain no macro
    objects and every amount of fuel: every key the render asked the context for - until it finished
    or until it failed - is in [find_undeclared] (globals such as `range` are asked and reported too).
@@ -88,6 +89,22 @@ Example undeclared_sound_nonvacuous :
   (exists s, run_asks demo_ctx 60 demo_body = OkE s /\ plain_context demo_ctx = true /\ length (s_asks s) = 6%nat) /\
   (exists a, run_asks demo_ctx 60 demo_fail = ErrE E_InvalidOperation a /\ length a = 3%nat).
 Proof. split; [exact demo_runs|exact demo_fails]. Qed.
+
+(* Lang v2 (maps, unpacking assignments): the pre-fix tracker is also refuted on {% set x, y = [x, y] %},
+   {% with (x, y) = [y, x] %}, {% set x, y = y %} (a render that fails to unpack after asking for y) and
+   {% set x = {x: 1} %}, and the fixed tracker is not; non-vacuity of undeclared_sound on programs with map
+   literals, map lookups, a loop over a map, unpacking set / with (a finished render asking five times, a
+   render that fails to unpack after asking four times) *)
+Example undeclared_refuted_before_fix_v2 :
+  forallb (asked_not_reported find_undeclared_old cfg0 50) refutation_programs_v2 = true /\
+  forallb (fun p => negb (asked_not_reported find_undeclared cfg0 50 p)) refutation_programs_v2 = true.
+Proof. exact refuted_before_fix_v2_proof. Qed.
+
+Example undeclared_sound_nonvacuous_maps :
+  (exists s, run_asks demo_ctx2 60 demo_map_body = OkE s /\ plain_context demo_ctx2 = true /\
+             output_of s = [112; 113; 55; 55; 49] /\ length (s_asks s) = 5%nat) /\
+  (exists a, run_asks demo_ctx2 60 demo_unpack_fail = ErrE E_CannotUnpack a /\ length a = 4%nat).
+Proof. split; [exact demo_maps_run|exact demo_unpack_fails]. Qed.
 
 Print Assumptions undeclared_sound.
 Print Assumptions xrun_agrees.
